@@ -37,7 +37,8 @@ def run(tier, seed):
                           dict(base, MaxDepth=WALK), nsetup=ns, walk_len=ns + WALK,
                           nwalks=NWALKS[0 if quick else 1], seed=seed, clauses=CLAUSES,
                           extra_behaviours=reload_behaviours(quick),
-                          extra_B=[{"Scenario": '"c12b"', "MaxDepth": 2 if quick else 3}])
+                          extra_B=[{"Scenario": '"c12b"', "MaxDepth": 2 if quick else 3},
+                                   {"Scenario": '"c12c"', "MaxDepth": 2 if quick else 3}])
 
 
 def replay(path):
